@@ -3,4 +3,4 @@
    An unrecognised shape yields a *Unknown constructor, which breaks C12_facts_pinned. *)
 From Symbolic Require Import SymModel.
 Definition gen_sym_facts : sym_facts :=
-  mkSymFacts OrdDependency SymVarsParsData StatFloatTimesRate DynCoefTimesRate EqsByVarNames JacEqsByVars LamTimeVarsPars ThirdUnknown FallbackWarnAnyException TimeShifted.
+  mkSymFacts OrdDependency SymVarsParsData StatFloatTimesRate DynCoefTimesRate EqsByVarNames JacEqsByVars LamTimeVarsPars ThirdNumericByName FallbackWarnAnyException TimeShifted.
